@@ -457,6 +457,89 @@ def rule_I13(ctx):
         ctx.note("I13: no compiled inline integer field on the partition parse path (obligation holds trivially)") if hasattr(ctx, "note") else None
 
 
+def _element_cache_sites(prog, functions, classes):
+    """(qualname, text, node) for: an object built from a package class stored into a container reached from `context` / `self` / a
+    module-level name, or a decode method returning an item of such a container"""
+    out = []
+    for m, q, fn in functions:
+        defs = {}
+        for a in own_nodes(fn):
+            if isinstance(a, ast.Assign) and len(a.targets) == 1 and isinstance(a.targets[0], ast.Name):
+                defs.setdefault(a.targets[0].id, []).append(a.value)
+        params = {a.arg for a in fn.args.posonlyargs + fn.args.args + fn.args.kwonlyargs}
+        local_stores = {x.id for x in own_nodes(fn) if isinstance(x, ast.Name) and isinstance(x.ctx, ast.Store)}
+
+        def root(e, depth=0):
+            """'context' / 'self' / 'module' / None: where the container expression comes from"""
+            if depth > 4:
+                return None
+            if isinstance(e, ast.Name):
+                if e.id in ("context", "ctx") and e.id in params:
+                    return "context"
+                if e.id == "self":
+                    return "self"
+                if e.id in defs:
+                    # any of its definitions may be the one in force
+                    rs_ = [r_ for r_ in (root(v_, depth + 1) for v_ in defs[e.id]) if r_ is not None]
+                    return rs_[0] if rs_ else None
+                if e.id not in local_stores and e.id not in params and m is not None and m.env.get(e.id) and m.env.get(e.id)[0] == "assign":
+                    return "module"
+                return None
+            if isinstance(e, (ast.Subscript, ast.Attribute)):
+                return root(e.value, depth + 1)
+            if isinstance(e, ast.Call) and isinstance(e.func, ast.Attribute) and e.func.attr in ("setdefault", "get"):
+                return root(e.func.value, depth + 1)
+            return None
+
+        def built(e, depth=0):
+            if depth > 3:
+                return False
+            if isinstance(e, ast.Call) and isinstance(e.func, ast.Name) and e.func.id in classes:
+                return True
+            if isinstance(e, ast.Name) and e.id in defs:
+                return any(built(v, depth + 1) for v in defs[e.id])
+            return False
+
+        for x in own_nodes(fn):
+            if isinstance(x, ast.Assign):
+                for t in x.targets:
+                    if isinstance(t, ast.Subscript) and root(t.value) in ("context", "self", "module") and built(x.value):
+                        out.append((q, norm(x)[:80], x))
+            if isinstance(x, ast.Call) and isinstance(x.func, ast.Attribute) and x.func.attr in ("setdefault", "append", "add") and len(x.args) >= 1 \
+                    and root(x.func.value) in ("context", "self", "module") and built(x.args[-1]):
+                out.append((q, norm(x)[:80], x))
+            if isinstance(x, ast.Return) and x.value is not None and fn.name in ("_decode", "_decode_element", "_parse") \
+                    and isinstance(x.value, (ast.Subscript, ast.Call)) and (isinstance(x.value, ast.Subscript) or (isinstance(x.value.func, ast.Attribute) and x.value.func.attr == "get")) \
+                    and root(x.value if isinstance(x.value, ast.Subscript) else x.value.func.value) in ("context", "self", "module") \
+                    and not (isinstance(x.value, ast.Subscript) and isinstance(x.value.slice, ast.Constant) and isinstance(x.value.slice.value, str)):
+                out.append((q, norm(x)[:80], x))
+    return out
+
+
+def rule_I14(ctx):
+    """uniqueness / history (C06, C16): every decode builds its element anew.  No adapter keeps the elements it built in a container that
+    outlives the call (the shared construct context, the adapter object, a module-level table) and none hands back an element taken
+    from such a container: a second directory that lists the same record would get the first directory's object - with the first
+    directory as its parent and its path"""
+    classes = {c.name for m_, q_, c in ctx.prog.all_classes()}
+    fns = [(m, q, fn) for m, q, fn in ctx.prog.all_functions() if fn.name in ("_decode", "_decode_element", "_parse", "_parsereport") or q.split(".")[0].endswith(("Adapter", "Construct", "List"))]
+    hits = _element_cache_sites(ctx.prog, fns, classes)
+    ctx.ob("I14", hits[0][2] if hits else ctx.prog.modules[sorted(ctx.prog.modules)[0]].tree, "decoded elements are built per call and not kept in the shared context / adapter / module state",
+           not hits, "" if not hits else f"{hits[0][0]}: `{hits[0][1]}`", inst="no-element-cache", **({} if hits else {"file": "smpl_extract/util/constructs.py", "qualname": "<package>"}))
+    ctx.fact("I14", "decode_functions", len(fns))
+    if len(fns) < 30:
+        raise AnalysisError("I14", "-", f"only {len(fns)} decode functions found (confirmed: > 40)")
+    # positive control
+    ctl = ast.parse("class Elem:\n    pass\nclass XAdapter:\n    def _decode_element(self, obj, child_info, context, path):\n        seen = context['_'].setdefault('_k', {})\n"
+                    "        if obj.index in seen:\n            return seen[obj.index]\n        e = Elem()\n        seen[obj.index] = e\n        return e\n")
+    for n_ in ast.walk(ctl):
+        for ch_ in ast.iter_child_nodes(n_):
+            ch_._parent = n_
+    cfn = ctl.body[1].body[0]
+    if len(_element_cache_sites(ctx.prog, [(None, "XAdapter._decode_element", cfn)], {"Elem"})) < 2:
+        raise AnalysisError("I14", "positive-control", "a context-held element cache is not recognised")
+
+
 def rule_I1(ctx):
     """a swallowed parse error of one record does not change where / whether the other records are read"""
     # (a) AKAI file table
